@@ -61,6 +61,16 @@ def run(ctx):
             if host not in used_names:
                 DC.add_reference(ctx.rng, doc, names, ['body', 'master'][i % 2], allrefs[i % len(allrefs)], host); refs.append((['body', 'master'][i % 2], allrefs[i % len(allrefs)][1], host))
             DC.add_reference(ctx.rng, doc, names, mode + ':' + host, attr, tgt); refs.append((mode + ':' + host, attr[1], tgt))
+            # ... and that one names a third (a chain the selection has to follow to its end, not one step)
+            free2 = [x for x in set(names) if x not in named and x not in (host, tgt)]
+            if free2:
+                t3 = ctx.rng.choice(sorted(free2)); mode2 = ['autoattr', 'autochild', 'autodeep'][i % 3]
+                a3 = attr_cycle[(i * 11 + 5) % len(attr_cycle)]
+                DC.add_reference(ctx.rng, doc, names, mode2 + ':' + tgt, a3, t3); refs.append((mode2 + ':' + tgt, a3[1], t3))
+                free3 = [x for x in free2 if x != t3]
+                if free3 and i % 2:
+                    t4 = ctx.rng.choice(sorted(free3))
+                    DC.add_reference(ctx.rng, doc, names, 'autoattr:' + t3, attr_cycle[(i * 13 + 1) % len(attr_cycle)], t4); refs.append(('autoattr:' + t3, attr_cycle[(i * 13 + 1) % len(attr_cycle)][1], t4))
         case = {'styles': names, 'references': refs}
         autos_t = X.walk_real(doc.automaticstyles)
         # ---- correspondence --------------------------------------------------------------------------
